@@ -17,7 +17,7 @@ import props
 seen = []
 for pid, cfg in sorted(props.PROPS.items()):
     for j in cfg['jobs']:
-        if 'gen' in j: continue   # cases computed by a Lean program: not part of the coverage run
+        if 'gen' in j or j.get('quick') is None: continue   # (Lean-generated cases / thorough-only jobs: not part of the coverage run)
         a = ' '.join(x.replace('{seed}', '1') for x in j['quick'])
         if a not in seen:
             seen.append(a)
